@@ -6,7 +6,7 @@ ASSUMPTIONS = ["theorem is about coq/Engine.v; tied to /repo by exact tree equal
 
 
 def run(ctx):
-    cov, viol = E.run_engine(ctx, "c03", ["plain", "flags"], 120, 3000, {"tree", "ends", "parse"})
+    cov, viol = E.run_engine(ctx, "c03", ["plain", "flags"], 120, 3000, {"tree", "ends", "parse"}, small=(True, 8, 250))
     fcov, fviol = E.fold_sweep(ctx)
     cov["fold_sweep"] = fcov
     return {"coverage": cov, "violations": viol + fviol}
